@@ -720,6 +720,28 @@ fn drive_c18(sc: &E2Scenario, rep: &mut RunReport) {
     }
 }
 
+/// C06 / C20 riders on a plain successful `generate`.
+fn drive_arte(sc: &E2Scenario, rep: &mut RunReport) {
+    let mut rn = Runner::new(sc);
+    let tree0 = rn.tree0.clone();
+    let (r, after) = rn.fresh(&["generate"], "json", sc.hash_seeds[0], Some(sc.readdir_seeds[0]), &[]);
+    rep.events += rn.runs;
+    if r.trapped() {
+        rep.violate(&["C18", "C08"], &format!("trap@{}", r.panic_site()), format!("exit {} {}", r.exit, tail(&r.stderr_str())));
+        return;
+    }
+    if r.exit != 0 {
+        rep.probe("generate_failed");
+        // with documents outside the config directory the pinned CLI cannot resolve imports
+        // (a C13/C20 matter judged by the c13 class); nothing to inspect here
+        return;
+    }
+    if let Ok(p) = parse_output("json", &r) {
+        rep.probe("generate_ok");
+        artifacts::check_artifacts(sc, &tree0, &after, &p.listed, rep);
+    }
+}
+
 /// C17: byte-identical outputs across hash seeds x directory orders, re-run, crash-then-rerun.
 fn drive_c17(sc: &E2Scenario, rep: &mut RunReport) {
     let mut rn = Runner::new(sc);
@@ -1234,7 +1256,8 @@ pub fn execute(sc: &E2Scenario) -> RunReport {
         return rep;
     }
     match sc.variant.as_str() {
-        "c18" | "arte" => drive_c18(sc, &mut rep),
+        "c18" => drive_c18(sc, &mut rep),
+        "arte" => drive_arte(sc, &mut rep),
         "c17" => drive_c17(sc, &mut rep),
         "c18f" => drive_c18f(sc, &mut rep),
         "c08" => drive_c08(sc, &mut rep),
